@@ -204,7 +204,7 @@ def _f28(vio):
 
 @mechanism("F29-merge-indexedarray-specialization")
 def _f29(vio):
-    return _op_of(vio).get("op") == "mergemany" and "unrecognized IndexedArray specialization" in str(vio.get("detail"))
+    return "unrecognized IndexedArray specialization" in str(vio.get("detail"))
 
 
 @mechanism("F24-merge-unknown-drops-parameters")
@@ -216,13 +216,53 @@ def _f24(vio):
 @mechanism("F25-merge-regular-vs-numpy")
 def _f25(vio):
     return vio.get("kind") == "outcome-kind-differs" and _op_of(vio).get("op") == "mergemany" and \
-        "cannot merge ListArray64 with NumpyArray" in str(vio.get("detail")) and _has_class(vio, ("RegularArray",))
+        ("cannot merge ListArray64 with NumpyArray" in str(vio.get("detail")) or
+         "cannot merge NumpyArray with RegularArray" in str(vio.get("detail"))) and _has_class(vio, ("RegularArray",))
 
 
 @mechanism("F26-combinations-through-records")
 def _f26(vio):
     return vio.get("kind") == "value-differs" and _op_of(vio).get("op") == "combinations" and \
         _has_class(vio, ("RecordArray",))
+
+
+@mechanism("F32-num-axis0-recordarray")
+def _f32(vio):
+    op = _op_of(vio)
+    return vio.get("kind") == "value-differs" and op.get("op") == "num" and _has_class(vio, ("RecordArray",)) and \
+        ("{" in str((vio.get("detail") or {}).get("A", "")) + str((vio.get("detail") or {}).get("B", "")) +
+         str((vio.get("detail") or {}).get("C", "")))
+
+
+@mechanism("F33-fillna-unmasked-recurses")
+def _f33(vio):
+    return vio.get("kind") == "value-differs" and _op_of(vio).get("op") == "fillna" and \
+        _has_class(vio, ("UnmaskedArray",))
+
+
+@mechanism("F10b-nonlocal-positions")
+def _f10b(vio):
+    op = _op_of(vio)
+    if vio.get("kind") != "value-differs":
+        return False
+    positional = op.get("op") == "argsort" or (op.get("op") == "reduce" and op.get("name") in ("argmin", "argmax"))
+    if not positional:
+        return False
+    from vlib import gen
+    case = vio.get("case") or {}
+    T = case.get("T")
+    if not T:
+        return False
+    hi = gen.depth_of(T)[1]
+    ax = op.get("axis", -1)
+    pos = ax if ax >= 0 else hi + ax
+    return pos < hi - 1          # not the innermost axis
+
+
+@mechanism("F35-sort-options-offset-origin")
+def _f35(vio):
+    return vio.get("kind") == "value-differs" and _op_of(vio).get("op") in ("sort", "argsort") and \
+        _has_class(vio, ("IndexedOptionArray", "ByteMaskedArray", "BitMaskedArray", "UnmaskedArray"))
 
 
 @mechanism("F10-reduce-nonlocal")
